@@ -187,13 +187,16 @@ def run_fault_case(case, acc, wd):
     seen_kinds = sorted(set(faults.values()))
     classes += ['fault-' + KINDS[k] for k in seen_kinds]
     if r.timed_out:
-        old = [s for s in getattr(r, 'survivors_at_timeout', [])
-               if ('binary' in s[2] or 'sleep 987654' in s[2]) and s[3] > 10 * limit]
-        if old:
-            acc.violation('stall', f'ddSMT still running after 75 s; command child older than 10x the limit: {old[:2]}', case)
+        # a stall needs a witness, elapsed time alone is not one: the command has not
+        # been started on any file for far longer than its limit although ddSMT is
+        # still running (a merely slow run keeps logging executions)
+        idle = getattr(r, 'log_idle_at_timeout', None)
+        if idle is not None and idle > max(20 * limit, 15):
+            acc.violation('stall', f'ddSMT still running after 75 s and no command execution for {idle:.0f} s '
+                          f'(limit {limit} s); processes: {getattr(r, "survivors_at_timeout", [])[:3]}', case)
         else:
             acc.skip('inconclusive: wall budget exceeded without stall witness')
-            acc.inconclusive.append(dict(why='wall budget', case=case))
+            acc.inconclusive.append(dict(why='wall budget', idle=idle, case=case))
         return False, classes
     if r.after is None:
         acc.skip('launcher crashed')
